@@ -354,10 +354,13 @@ func (s *UtxoStore) VerifWF() bool { return s != nil && s.bucketMeta != nil }
 //@   ensures err == nil && len(k) > 0 ==> !bhas(ns, k) && bsameExcept(ns, k)
 //@   ensures err != nil || len(k) == 0 ==> bsame(ns)
 
+// (C18: a storage error while reading the marker is reported -- "no pending spender" is answered only when the bucket
+// really has no record under the key)
 //@ func fetchUnminedInputSpendTxHashes
-//@   props C09 C19
+//@   props C09 C18 C19
 //@   requires ns != nil && miWF(ns)
-//@   ensures result != nil ==> len(k) > 0 && bhas(ns, k) && len(result) == len(bval(ns, k)) / 32
+//@   ensures result0 != nil ==> result1 == nil && len(k) > 0 && bhas(ns, k) && len(result0) == len(bval(ns, k)) / 32
+//@   ensures[C18] result1 == nil && result0 == nil && len(k) > 0 ==> !bhas(ns, k)
 //@   loop#1 invariant len(rawSpendTxHashes) % 32 == 0 && len(rawSpendTxHashes) >= 0
 //@   loop#1 invariant unchanged(k) && fresh(spendTxHashes)
 //@   loop#1 invariant rawSpendTxHashes != nil && len(k) > 0 && bhas(ns, k)
